@@ -1,0 +1,90 @@
+//go:build verif
+
+// Contracts for govc (contract-based deductive verification); comments only.
+package podgroup
+
+// every entry of src is present in tgt with the same value (tgt may carry more: labels and
+// annotations written by other actors are not the pod-grouper's business)
+//@ define covers(src map[string]string, tgt map[string]string) bool = forall k string :: (k in src) ==> ((k in tgt) && tgt[k] == src[k])
+
+// C18 "Reconciling again without external change writes nothing": the label/annotation part of the
+// "is there anything to write" test is exactly "every desired entry is already stored".
+//@ func mapsEqualBySourceKeys
+//@   props C18
+//@   pure
+//@   loop 1
+//@     invariant forall k in visited :: (k in target) && target[k] == source[k]
+//@   ensures [nilTarget] (source != nil && target == nil) ==> !result
+//@   ensures [covers] !(source != nil && target == nil) ==> result == covers(source, target)
+//@ end
+
+// C18 "never overwrites fields owned by other actors": merging the desired entries into the stored
+// map keeps every stored entry whose key the pod-grouper does not set.
+//@ func copyStringMap
+//@   props C18
+//@   modifies target[*]
+//@   loop 1
+//@     invariant source != nil ==> cur(target) != nil
+//@     invariant forall k string :: (k in cur(target)) == (old(k in target) || ((k in source) && (k in visited)))
+//@     invariant forall k string :: cur(target)[k] == ite((k in source) && (k in visited), source[k], old(target[k]))
+//@   ensures [sameMap] old(target) != nil ==> result == old(target)
+//@   ensures [nilnil] (source == nil && old(target) == nil) ==> result == nil
+//@   ensures [freshMap] (source != nil && old(target) == nil) ==> result != nil && fresh(result)
+//@   ensures [keys] forall k string :: (k in result) == (old(k in target) || (k in source))
+//@   ensures [values] forall k string :: result[k] == ite(k in source, source[k], old(target[k]))
+//@ end
+
+// C18: the write-back merges the desired labels/annotations INTO the stored ones (foreign entries
+// survive), takes spec and owner references from the (ignoreFields-filtered) desired object and
+// touches nothing else of the stored object (status, name, resourceVersion ... : frame).
+//@ func updatePodGroup
+//@   props C18
+//@   requires oldPodGroup != nil && newPodGroup != nil && oldPodGroup != newPodGroup
+//@   requires oldPodGroup.Labels == nil || (oldPodGroup.Labels != oldPodGroup.Annotations && oldPodGroup.Labels != newPodGroup.Labels && oldPodGroup.Labels != newPodGroup.Annotations)
+//@   requires oldPodGroup.Annotations == nil || (oldPodGroup.Annotations != newPodGroup.Labels && oldPodGroup.Annotations != newPodGroup.Annotations)
+//@   modifies oldPodGroup.Annotations, oldPodGroup.Labels, oldPodGroup.Spec, oldPodGroup.OwnerReferences, oldPodGroup.Annotations[*], oldPodGroup.Labels[*]
+//@   ensures [labelsDesired] covers(newPodGroup.Labels, oldPodGroup.Labels)
+//@   ensures [annotationsDesired] covers(newPodGroup.Annotations, oldPodGroup.Annotations)
+//@   ensures [foreignLabelsKept] forall k string :: !(k in newPodGroup.Labels) ==> ((k in oldPodGroup.Labels) == old(k in oldPodGroup.Labels)) && oldPodGroup.Labels[k] == old(oldPodGroup.Labels[k])
+//@   ensures [foreignAnnotationsKept] forall k string :: !(k in newPodGroup.Annotations) ==> ((k in oldPodGroup.Annotations) == old(k in oldPodGroup.Annotations)) && oldPodGroup.Annotations[k] == old(oldPodGroup.Annotations[k])
+//@   ensures [specQueue] oldPodGroup.Spec.Queue == newPodGroup.Spec.Queue
+//@   ensures [specMinMember] oldPodGroup.Spec.MinMember == newPodGroup.Spec.MinMember
+//@   ensures [specPriority] oldPodGroup.Spec.PriorityClassName == newPodGroup.Spec.PriorityClassName
+//@   ensures [specPreemptibility] oldPodGroup.Spec.Preemptibility == newPodGroup.Spec.Preemptibility
+//@   ensures [specMarkUnschedulable] oldPodGroup.Spec.MarkUnschedulable == newPodGroup.Spec.MarkUnschedulable
+//@   ensures [specBackoff] oldPodGroup.Spec.SchedulingBackoff == newPodGroup.Spec.SchedulingBackoff
+//@   ensures [specSubGroups] oldPodGroup.Spec.SubGroups == newPodGroup.Spec.SubGroups
+//@   ensures [owners] oldPodGroup.OwnerReferences == newPodGroup.OwnerReferences
+//@ end
+
+// Property C18: "reconciliation never overwrites fields owned by other actors (queue after creation,
+// mark-unschedulable, scheduling backoff, node-pool label)". ignoreFields builds the object that is
+// compared with / written over the stored one: in it, those fields must be the STORED (old) ones.
+//@ func (*Handler).ignoreFields
+//@   props C18
+//@   requires h != nil && oldPodGroup != nil && newPodGroup != nil
+//@   # engine: references read only by the spec are not known to pre-date the call; say so explicitly
+//@   requires allocated(newPodGroup.Annotations) && allocated(newPodGroup.Labels) && allocated(oldPodGroup.Labels)
+//@   fresh
+//@   ensures [markUnschedulable] result.Spec.MarkUnschedulable == oldPodGroup.Spec.MarkUnschedulable
+//@   ensures [schedulingBackoff] result.Spec.SchedulingBackoff == oldPodGroup.Spec.SchedulingBackoff
+//@   ensures [queue] result.Spec.Queue == oldPodGroup.Spec.Queue
+//@   ensures [nodePoolLabel] ((h.nodePoolKey in result.Labels) == (h.nodePoolKey in oldPodGroup.Labels)) && result.Labels[h.nodePoolKey] == oldPodGroup.Labels[h.nodePoolKey]
+//@   ensures [queueLabel] (h.queueLabelKey in oldPodGroup.Labels) ==> (h.queueLabelKey in result.Labels) && result.Labels[h.queueLabelKey] == oldPodGroup.Labels[h.queueLabelKey]
+//@   ensures [otherLabelsDesired] forall k string :: k != h.nodePoolKey && !(k == h.queueLabelKey && (k in oldPodGroup.Labels)) ==> ((k in result.Labels) == (k in newPodGroup.Labels)) && result.Labels[k] == newPodGroup.Labels[k]
+//@   ensures [annotationsDesired] forall k string :: ((k in result.Annotations) == (k in newPodGroup.Annotations)) && result.Annotations[k] == newPodGroup.Annotations[k]
+//@   ensures [desiredSpec] result.Spec.MinMember == newPodGroup.Spec.MinMember && result.Spec.PriorityClassName == newPodGroup.Spec.PriorityClassName && result.Spec.Preemptibility == newPodGroup.Spec.Preemptibility
+//@   ensures [labelsNonNil] result.Labels != nil && fresh(result.Labels)
+//@   ensures [name] result.Name == newPodGroup.Name && result.Namespace == newPodGroup.Namespace
+//@ end
+
+// C18 "Reconciling again ... writes nothing": the no-write short-circuit. reflect.DeepEqual (spec,
+// owner references) has no model, so only the label/annotation half is decided, one direction:
+// "no write" implies every desired label and annotation is already stored.
+//@ func podGroupsEqual
+//@   props C18
+//@   requires oldPodGroup != nil && newPodGroup != nil
+//@   pure
+//@   ensures [labelsStored] result ==> (newPodGroup.Labels == nil || oldPodGroup.Labels != nil) && covers(newPodGroup.Labels, oldPodGroup.Labels)
+//@   ensures [annotationsStored] result ==> (newPodGroup.Annotations == nil || oldPodGroup.Annotations != nil) && covers(newPodGroup.Annotations, oldPodGroup.Annotations)
+//@ end
